@@ -22,6 +22,7 @@ LITS = [["n"], ["b", True], ["b", False], ["i", "0"], ["i", "1"], ["i", "-1"], [
         ["s", "a"], ["s", "abc"], ["s", "true"], ["s", "b c"], ["st", "Empty"], ["st", "Blank"]]
 ONLYVAR = [["a", []], ["a", [["i", "1"]]], ["a", [["i", "1"], ["i", "2"]]], ["a", [["s", "a"]]], ["a", [["n"]]], ["o", []], ["o", [["a", ["i", "1"]]]],
            ["o", [["1", ["i", "1"]], ["b", ["n"]]]], F(float("nan"))]
+WS_STRINGS = ["\t", "\n", " \t\n", "\r\n ", "\x0b\x0c", "\u00a0", "\u2003 ", "\u3000", "\x85", "\u1680\u2000\u200a", "\u2028\u2029", "\u202f\u205f", "\u200b", " x ", "\t.", "\ufeff", "    "]
 OPS = ["==", "!=", "<>", "<", ">", "<=", ">=", "contains"]
 
 
@@ -61,6 +62,22 @@ def gen(tier, seed):
             add([("if", True, ("ex", fa), [("text", "T")], [("text", "F")])], "T" if vmodel.truthy(a) else "F", "truth")
             add([("if", False, ("ex", fa), [("text", "T")], [("text", "F")])], "F" if vmodel.truthy(a) else "T", "unless")
             add([("if", False, ("ex", fa), [("text", "T")], None)], "" if vmodel.truthy(a) else "T", "unless")
+    # blank / empty / default answers of strings made of every kind of whitespace (and near misses), against the state literals and the other falsy-looking values
+    for k, sx in enumerate(WS_STRINGS):
+        a = ["s", sx]
+        d = [["w", a], ["e", ["s", ""]], ["arr", ["a", []]], ["obj", ["o", []]]]
+        others = [(lit(["st", "Blank"]), ["st", "Blank"]), (lit(["st", "Empty"]), ["st", "Empty"]), (lit(["n"]), ["n"]), (var("e"), ["s", ""]), (lit(["s", " "]), ["s", " "]), (lit(["b", False]), ["b", False]),
+                  (var("arr"), ["a", []]), (var("obj"), ["o", []])]
+        fas = [var("w")] + ([lit(a)] if "\n" not in sx and "\r" not in sx and "\u2028" not in sx and "\u2029" not in sx and "\x85" not in sx and "\x0b" not in sx and "\x0c" not in sx else [])
+        for fa in fas:
+            for fb, b in others:
+                for op in ("==", "!=", "<>", "contains"):
+                    add([("if", True, ("bin", fa, op, fb), [("text", "T")], [("text", "F")])], ("compare", op, a, b), "whitespace strings vs states", d)
+                    add([("if", True, ("bin", fb, op, fa), [("text", "T")], [("text", "F")])], ("compare", op, b, a), "whitespace strings vs states", d)
+            add([("if", True, ("ex", fa), [("text", "T")], [("text", "F")])], "T", "whitespace strings vs states", d)
+        arms = [([lit(["st", "Blank"])], [("text", "WB")]), ([lit(["st", "Empty"])], [("text", "WE")])]
+        add([("case", var("w"), arms, [("text", "E")])], "WB" if vmodel.veq(["st", "Blank"], a) else "WE" if vmodel.veq(["st", "Empty"], a) else "E", "whitespace strings vs states", d)
+        add([("capture", "cw", [("text", sx)]), ("if", True, ("bin", var("cw"), "==", lit(["st", "Blank"])), [("text", "T")], [("text", "F")])], ("compare", "==", a, ["st", "Blank"]), "whitespace strings vs states", d)
     # undefined names: bare test is false, comparison is an error
     add([("if", True, ("ex", var("undefined_name")), [("text", "T")], [("text", "F")])], "F", "undefined")
     add([("if", True, ("ex", var("v3", "nope")), [("text", "T")], [("text", "F")])], "F", "undefined")
